@@ -214,6 +214,18 @@ def _symlink_case(target_kind, deep, rel):
                 gp = None
             if gp != a.path:
                 problems.append(("get_project through a symlinked job directory", gp, a.path))
+            # the linked job is a job of project A for every access path: iteration, len, membership, full id, unique prefix
+            fresh = signac.get_project(a.path, search=False)
+            ids = sorted(j.id for j in fresh)
+            if ids != [jid] or len(fresh) != 1:
+                problems.append(("a job whose directory is a symbolic link is not listed", ids, len(fresh)))
+            if fresh.open_job(sp) not in fresh:
+                problems.append(("membership of the linked job",))
+            try:
+                if fresh.open_job(id=jid[:5]).id != jid or fresh.open_job(id=jid).statepoint() != sp:
+                    problems.append(("linked job by id / prefix",))
+            except Exception as e:  # noqa
+                problems.append(("linked job by id / prefix raised", type(e).__name__))
         finally:
             os.chdir(old)
     return problems
@@ -297,7 +309,7 @@ def h_init(doc: bool, cache: bool, jobs: int, extra: bool, mode: int):
 
 # ---------------------------------------------------------------------------------------- names that merely CONTAIN an id
 PRE = ["", "x", "0", "ab"]
-SUF = ["", ".bak", "_backup", "0", "abcdef01", "/"]   # 'abcdef01': a 40-hex name (a git object id); '/': trailing separator in the query
+SUF = ["", ".bak", "_backup", "0", "abcdef01", "/", "^"]   # 'abcdef01': a 40-hex name (a git object id); '/': trailing separator in the query
 
 
 def _idlike_case(name, where, deep, rel, sibling):
@@ -310,6 +322,10 @@ def _idlike_case(name, where, deep, rel, sibling):
         real = pr.open_job({"x": 1}).init()
         jid = real.id
         nm = name.replace("@", jid)
+        if "^" in nm:
+            nm = nm.replace("^", "").upper()      # the same 32 hex characters in UPPER case (e.g. an upper-case MD5 digest used as a directory name)
+            if nm == jid:
+                nm = "ABCDEF" + jid[6:]
         is_id = nm.rstrip("/") == jid
         if where == 0:
             if not sibling and not is_id:
@@ -424,6 +440,64 @@ def h_legacy_between(where: int, rc: int, depth: int, rel: bool):
     assert not problems
 
 
+def _legacy_above_case(rc, depth, entry, rel):
+    """an ANCESTOR holds a pre-2.0 configuration file and there is no current project at or above the queried directory:
+    search=False looks at the exact directory only (LookupError, not the ancestor's IncompatibleSchemaVersion), and init_project
+    creates a project there"""
+    problems = []
+    with SL.Scratch() as sc:
+        top = os.path.join(sc.root, "old")
+        os.makedirs(top)
+        with open(os.path.join(top, ["signac.rc", ".signacrc"][rc % 2]), "w") as f:
+            f.write(["project = old\n", "project = old\nschema_version = 1\n"][rc // 2])
+        q = top
+        for i in range(depth + 1):
+            q = os.path.join(q, "d%d" % i)
+        os.makedirs(q)
+        before = SL.snap(top)
+        old = os.getcwd()
+        try:
+            arg = q
+            if rel:
+                os.chdir(top)
+                arg = os.path.relpath(q, top)
+            if entry == 0:
+                try:
+                    signac.get_project(arg, search=False)
+                    problems.append(("a plain directory was opened as a project",))
+                except LookupError:
+                    pass
+                except Exception as e:  # noqa
+                    problems.append(("get_project(search=False) on a plain directory below a legacy project", type(e).__name__))
+                if SL.snap(top) != before:
+                    problems.append(("the query changed the tree",))
+            else:
+                try:
+                    pr = signac.init_project(arg)
+                    if os.path.realpath(pr.path) != os.path.realpath(q):
+                        problems.append(("init_project returned another project", pr.path))
+                    if not os.path.isfile(os.path.join(q, ".signac", "config")):
+                        problems.append(("init_project did not create the project",))
+                    pr2 = signac.init_project(arg)
+                    if os.path.realpath(pr2.path) != os.path.realpath(q):
+                        problems.append(("second init_project returned another project",))
+                except Exception as e:  # noqa
+                    problems.append(("init_project in a plain directory below a legacy project raised", type(e).__name__, str(e)[:80]))
+        finally:
+            os.chdir(old)
+    return problems
+
+
+def h_legacy_above(rc: int, depth: int, entry: int, rel: bool):
+    assert 0 <= rc <= 3 and 0 <= depth <= 1 and 0 <= entry <= 1
+    fresh_path()
+    rc, depth, entry, rel = ci(rc, 0, 3), ci(depth, 0, 1), ci(entry, 0, 1), cb(rel)
+    with nt():
+        problems = _legacy_above_case(rc, depth, entry, rel)
+    reached()
+    assert not problems
+
+
 def extra_checks(tier_):
     """E3: z3 builds directory names from the LIVE job id regular expression - names that contain an id-like run without being one
     (non-empty prefix / non-empty suffix / two adjacent runs / upper-case look-alike) - and every witness is replayed through the real
@@ -487,4 +561,5 @@ HARNESSES = [
     dict(name="h_init", timeout=(300, 600), unblock=True),
     dict(name="h_idlike", timeout=(300, 600), parts=(4, 4), unblock=True),
     dict(name="h_legacy_between", timeout=(300, 600), unblock=True),
+    dict(name="h_legacy_above", timeout=(300, 600), unblock=True),
 ]
